@@ -1957,6 +1957,71 @@ void f_all_long(Src &s, Case &c)
     f_all(s, c);
     c.label("long_operands");
 }
+// ------------------------------------------------------------ one needle in a long haystack
+// The scanning functions on 200..1300 bytes of filler with the searched byte at exactly one place: the first bytes, the last
+// bytes, or a multiple of 64 / 256 (+-1) away from either end — chunked and word-at-a-time scanners change gear there.
+void f_needle_scan(Src &s, Case &c)
+{
+    size_t n = s.coin() ? (size_t)s.range(200, 1300) : (size_t)(256 * s.range(1, 4) + s.range(-2, 2));
+    size_t step = s.pick<uint32_t>({64, 128, 256, 256, 512});
+    size_t k = (size_t)s.range(0, (int64_t)(n / step));
+    size_t pos;
+    switch (s.below(6))
+    {
+    case 0:
+        pos = (size_t)s.below(3);
+        break;
+    case 1:
+        pos = n - 1 - (size_t)s.below(3);
+        break;
+    case 2:
+        pos = k * step + (size_t)s.below(3); // from the start
+        break;
+    case 3:
+        pos = n - k * step - (size_t)s.below(3); // from the end (n - 256k, n - 256k - 1, ...)
+        break;
+    default:
+        pos = (size_t)s.below(n);
+    }
+    if (pos >= n)
+        pos = n - 1;
+    uint8_t needle = s.pick<uint8_t>({'x', 0x80, 0xFF, 0x01, 'A'});
+    uint8_t fill = s.pick<uint8_t>({'a', 0x7F, 0xFE, ' ', 'b'});
+    bool present = s.below(8) != 0;
+    Bytes buf(n, fill);
+    if (s.coin())
+        for (size_t i = 0; i < n; i++)
+            buf[i] = (uint8_t)(fill ^ (uint8_t)((i * 5) & 6)); // a little texture; never the needle, never 0
+    for (size_t i = 0; i < n; i++)
+        if (buf[i] == needle || buf[i] == 0)
+            buf[i] = fill;
+    if (present)
+        buf[pos] = needle;
+    size_t off = pick_off(s);
+    bool at_start = s.coin();
+    int fn = (int)s.below(5);
+    static const char *names[5] = {"memchr", "memrchr", "strchr", "strrchr", "strchrnul"};
+    c.label(names[fn]);
+    c.label(present ? "needle_present" : "needle_absent");
+    c.nontrivial = present;
+    c.log("%s: %zu bytes of filler, %02x %s%zu (= n-%zu), off=%zu flush=%s", names[fn], n, needle, present ? "only at " : "absent; would be at ", pos, n - pos, off,
+          at_start ? "start" : "end");
+    switch (fn)
+    {
+    case 0:
+        chk_memchr(buf, needle, n, off);
+        break;
+    case 1:
+        chk_memrchr(buf, needle, off, at_start);
+        break;
+    default:
+        chk_chr(fn - 2, buf, needle, off, at_start);
+    }
+}
+VP_TARGET("needle_scan", f_needle_scan,
+          "memchr / memrchr / strchr / strrchr / strchrnul on 200..1300 bytes of filler holding the searched byte at one place only (or nowhere): within 3 bytes of either end, "
+          "or a multiple of 64 / 128 / 256 / 512 (+0..2) away from the start or from the end; same oracles as the per-function targets");
+
 // ------------------------------------------------------------ through the bundled headers
 // Small operands (the per-function targets own lengths, alignment and bounds); what is judged here is the entry point a
 // caller of the bundled headers gets: same answer as the host function, every argument expression evaluated once.
